@@ -557,6 +557,7 @@ class Entity:
         self.closed: dict[str, set] = collections.defaultdict(set)
         self.live_tid: dict[str, tuple | None] = collections.defaultdict(lambda: None)
         self.stalled = False
+        self.tick_inbox: list = []
         self.inbox: list[bytes] = []
         self.poll_armed = False
         self.nodrain = False
@@ -721,6 +722,7 @@ class World:
         self.lib_excs: dict[str, int] = {}
         self.parse_rejects = 0
         self.fs_fault = None  # callable(op, path, ...) -> exception or None (destination side)
+        self.fs_fault_x = None  # callable(entity name, op, path, ...) -> exception or None: read_data / calculate_checksum / file_size of either side
         self.max_events = 3000
         self.max_t = 600_000
         self.cap_hit = None
@@ -731,6 +733,10 @@ class World:
         self.noop_polls = 0
         self.pending = 0  # queued non-poll events
         self.pacing = "regular"
+        self.lazy_ms = 4000
+        self.tick_ms = 1000  # pacing "ticked": period of every entity's main loop
+        self.tick_phase_ms = 300  # ... and the offset of the second entity's loop
+        self.wake_armed: set = set()
         self.polled = (("a", "src"), ("b", "dst"))
         self.route_hook = None  # callable(ent, pdu, "src"|"dst") -> handler key | None (C11, C19)
         self.audit = None  # object with enter(rec)/exit(rec), active around every handler API call (C16)
@@ -768,10 +774,12 @@ class World:
             self.dst_path = "dst/out.bin"
             if c.dst_shape == 2:
                 st.h_put(self.dst_path, b"OLD" * (c.size // 3 + 5))
-        self.vfs_b = FaultyFilestore(self.vfs_b_inner, self._fs_decide)
+        self.vfs_b = FaultyFilestore(self.vfs_b_inner, self._fs_decide, lambda op, path, *x: self._fs_decide_x("b", op, path, *x))
+        # the sending entity's store sits behind the second seam only (reads / checksums / sizes that fail)
+        self.vfs_a_user = FaultyFilestore(self.vfs_a, lambda *a: None, lambda op, path, *x: self._fs_decide_x("a", op, path, *x))
         self.a = Entity(self, "a", 1, c.idw_a)
         self.b = Entity(self, "b", 2, c.idw_b)
-        for ent, other, ind, vfs in ((self.a, self.b, c.ind_a, self.vfs_a), (self.b, self.a, c.ind_b, self.vfs_b)):
+        for ent, other, ind, vfs in ((self.a, self.b, c.ind_a, self.vfs_a_user), (self.b, self.a, c.ind_b, self.vfs_b)):
             self._equip(ent, other, ind, vfs)
         self.b.user.hooks = self.user_hooks_b
         self.a.peer = self.b
@@ -823,6 +831,14 @@ class World:
         self.link.partition[name_x] = False
         self.link.partition[name_y] = False
         return x, y
+
+    def _fs_decide_x(self, who, op, path, *extra):
+        if self.fs_fault_x is None:
+            return None
+        e = self.fs_fault_x(who, op, path, *extra)
+        if e is not None and self.cur_call is not None:
+            self.cur_call.vfs_rejects += 1
+        return e
 
     def _fs_decide(self, op, path, *extra):
         if self.fs_fault is None:
@@ -884,7 +900,7 @@ class World:
 
     def push(self, t: int, ev: tuple) -> None:
         self.seq += 1
-        if ev[0] != "poll":
+        if ev[0] not in ("poll", "tick"):
             self.pending += 1
         heapq.heappush(self.heap, (t, self.seq, ev))
 
@@ -1050,7 +1066,10 @@ class World:
                 self.probe("foreign_tid_dropped")
                 self.log.append(f"  {ent.name}.{hk} drop foreign {tid} {pdu_info(pdu)}")
                 return None
-        return self.call(ent, hk, "sm", pdu, raw)
+        rec = self.call(ent, hk, "sm", pdu, raw)
+        if self.pacing in ("event", "lazy"):
+            self.arm_wake(ent, hk)
+        return rec
 
     def poll(self, ent: Entity, hk: str, tags=()) -> CallRec:
         return self.call(ent, hk, "sm", None, tags=tags)
@@ -1071,14 +1090,39 @@ class World:
             self.clock.now_ms = self.clock.EPOCH + t
         self.nev += 1
         kind = ev[0]
-        if kind != "poll":
+        if kind not in ("poll", "tick"):
             self.pending -= 1
         if kind == "arr":
             ent, raw = ev[1], ev[2]
             if ent.stalled:
                 ent.inbox.append(raw)
+            elif self.pacing == "ticked" and not self.polls_stopped:
+                # the user's main loop looks at what has arrived only once per tick
+                ent.tick_inbox.append(raw)
+                self.pending += 1
             else:
                 self.deliver(ent, raw)
+        elif kind == "tick":
+            # main loop of an entity: `for pdu in arrived: state_machine(pdu)`, else `state_machine()`; repeated at once
+            # while the handlers have something to do, then sleep one period
+            ent = ev[1]
+            if self.polls_stopped:
+                return True
+            busy = False
+            if not ent.stalled:
+                msgs, ent.tick_inbox = ent.tick_inbox, []
+                self.pending -= len(msgs)
+                served = set()
+                for raw in msgs:
+                    r = self.deliver(ent, raw)
+                    busy = True
+                    if r is not None:
+                        served.add(r.hk)
+                for en, hk in self.polled:
+                    if en == ent.name and hk not in served:
+                        r = self.poll(ent, hk)
+                        busy = busy or bool(r.emitted) or r.pre.step != r.post.step
+            self.push(self.clock.t + (1 if busy else self.tick_ms), ("tick", ent))
         elif kind == "poll":
             ent, hk = ev[1], ev[2]
             busy = False
@@ -1086,6 +1130,15 @@ class World:
                 r = self.poll(ent, hk)
                 busy = bool(r.emitted) or r.pre.step != r.post.step
             self.arm_poll(ent, hk, busy)
+        elif kind == "wake":
+            # event-driven caller (pacing "event" / "lazy"): after a PDU was handed over, the state machine is called
+            # until it has nothing more to do, then not again before the next PDU (or the slow poll loop of "lazy")
+            ent, hk = ev[1], ev[2]
+            self.wake_armed.discard((ent.name, hk))
+            if not ent.stalled and not self.polls_stopped:
+                r = self.poll(ent, hk, tags=("WAKE",))
+                if bool(r.emitted) or r.pre.step != r.post.step:
+                    self.arm_wake(ent, hk)
         elif kind == "fn":
             ev[1](self)
         return True
@@ -1098,12 +1151,33 @@ class World:
         p = self.cfg.poll_ms
         if self.pacing == "regular":
             d = 1 if busy else p
+        elif self.pacing in ("event", "lazy"):
+            if busy:
+                d = 1
+            elif self.pacing == "lazy":
+                d = self.lazy_ms
+            else:
+                return  # nothing to do: the next call comes with the next PDU
         else:
             d = (1, 7, p, 4 * p)[ent.tape_by.get(hk, ent.tape).choose(4, f"pace {ent.name}.{hk}")]
         self.push(self.clock.t + d, ("poll", ent, hk))
 
+    def arm_wake(self, ent: Entity, hk: str) -> None:
+        if (ent.name, hk) in self.wake_armed or self.polls_stopped:
+            return
+        self.wake_armed.add((ent.name, hk))
+        self.push(self.clock.t + 1, ("wake", ent, hk))
+
     def start_polls(self) -> None:
         self.polls_stopped = False
+        if self.pacing == "ticked":
+            ents = []
+            for en, _hk in self.polled:
+                if en not in ents:
+                    ents.append(en)
+            for i, en in enumerate(ents):
+                self.push(self.clock.t + 1 + (self.tick_phase_ms if i else 0), ("tick", self.ents[en]))
+            return
         for en, hk in self.polled:
             self.arm_poll(self.ents[en], hk, True)
 
@@ -1122,6 +1196,8 @@ class World:
             if until is not None and until(self):
                 return "until"
             if not self.step():
+                if not self.cap_hit and self.pacing == "event" and self.all_idle():
+                    return "quiet"  # an event-driven caller has no poll loop that could go on
                 return self.cap_hit or "empty"
             if self.pending == 0 and self.all_idle():
                 quiet += 1
